@@ -221,6 +221,10 @@ def run(ctx: Ctx):
                 "with and without a registered application callback; distinct = distinct case")
     ctx.add_sample({"case": cases[len(cases) // 2], "trace": traces[len(cases) // 2]})
     ctx.validate_traces("Trace_Failure", traces, constants=consts(), metas=[list(c) for c in cases], label="failure", sig=sig)
+    # the same statements end to end: the composed host stack (Stack.tla) against a faulty line and a conforming NCP
+    from . import stackx
+    stackx.model_check(ctx, "failure")
+    stackx.run_traces(ctx, "failure")
     ctx.exhaustive = False
     ctx.assumptions += ["full-stack rig (fake serial transport, simulated ASH + EZSP NCP), virtual time",
                         "the failure is 'known' when the application callback fires; a silent NCP is retried until the ASH budget is exhausted",
@@ -228,6 +232,9 @@ def run(ctx: Ctx):
 
 
 def replay(ctx: Ctx, data):
+    if data["replay"].get("module") == "Trace_Stack":
+        from . import stackx
+        return stackx.replay(ctx, data)
     m = data["replay"]["meta"]
     tr = run_case(tuple(m))
     ctx.validate_traces("Trace_Failure", [tr], constants=consts(), metas=[m], label="failure", sig=sig)
